@@ -66,33 +66,34 @@ func (fc *funcContract) hasProp(p string) bool {
 
 // taggedFor: some clause of the contract is labelled with the property id
 func (fc *funcContract) taggedFor(p string) bool {
+	is := func(tag string) bool { return propMatch(tagProp(tag), p) }
 	for _, cl := range fc.requires {
-		if tagProp(cl.tag) == p {
+		if is(cl.tag) {
 			return true
 		}
 	}
 	for _, cl := range fc.ensures {
-		if tagProp(cl.tag) == p {
+		if is(cl.tag) {
 			return true
 		}
 	}
 	for _, ac := range fc.atcalls {
-		if tagProp(ac.cl.tag) == p {
+		if is(ac.cl.tag) {
 			return true
 		}
 	}
 	for _, as := range fc.atstores {
-		if tagProp(as.cl.tag) == p {
+		if is(as.cl.tag) {
 			return true
 		}
 	}
 	for _, ai := range fc.atifs {
-		if tagProp(ai.cl.tag) == p {
+		if is(ai.cl.tag) {
 			return true
 		}
 	}
 	for _, lc := range fc.loopCalls {
-		if tagProp(lc.tag) == p {
+		if is(lc.tag) {
 			return true
 		}
 	}
